@@ -444,9 +444,50 @@ M10 = "inverse-and-solver-agreement"
 EPS = float(np.finfo(float).eps)
 
 
+def c10_wide_case(rec, hub, rng):
+    """One LARGE configuration (75-95 years x 750-900 labels: survival and cohort tables of 4-8 million entries): the inflow-driven model
+    and its stock-driven inverse agree in inflow, outflow and both cohort tables.  Kept to two live stocks (a few hundred MB) and run
+    in one shard only."""
+    import gc
+
+    fd = hub.fd
+    n_t, n_lab = int(rng.integers(75, 96)), int(rng.integers(750, 901))
+    tdim = fd.Dimension(letter="t", name="time", items=[1900 + j for j in range(n_t)])
+    ldim = fd.Dimension(letter="p", name="product", items=[f"p{int(q):04d}" for q in rng.permutation(n_lab)])
+    dims = fd.DimensionSet(dim_list=[tdim, ldim])
+    model = str(rng.choice(["NormalLifetime", "WeibullLifetime", "LogNormalLifetime"]))
+    mean = rng.uniform(8.0, 40.0, size=(n_lab,))
+    prms = {"mean": mean, "std": mean * rng.uniform(0.2, 0.5, size=(n_lab,))} if model != "WeibullLifetime" else {"weibull_shape": rng.uniform(1.0, 4.0, size=(n_lab,)), "weibull_scale": mean}
+    x = rng.uniform(0.0, 100.0, size=(n_t, n_lab))
+    solver = str(rng.choice(["manual", "lapack"]))
+    with quiet():
+        idm = fd.InflowDrivenDSM(dims=dims, time_letter="t", name="large", lifetime_model=getattr(fd, model)(dims=dims, time_letter="t", **{k: fd.FlodymArray(dims=dims["p",], values=v.copy()) for k, v in prms.items()}),
+                                 inflow=fd.StockArray(dims=dims, values=x.copy()))
+        idm.compute()
+        sdm = fd.StockDrivenDSM(dims=dims, time_letter="t", name="large inverse", solver=solver, lifetime_model=getattr(fd, model)(dims=dims, time_letter="t", **{k: fd.FlodymArray(dims=dims["p",], values=v.copy()) for k, v in prms.items()}),
+                                stock=fd.StockArray(dims=dims, values=np.array(idm.stock.values, dtype=float)))
+        sdm.compute()
+    with hub.pause():
+        kappa = S.cond_estimate(sdm.lifetime_model)
+    tol = 1e3 * n_t * EPS * max(kappa, 1.0)
+    rec.event(M10, sig=f"large|{model}|{solver}|{n_t}x{n_lab}", cls=f"large tables ({n_t * n_t * n_lab // 1000000} million entries)|{solver}", sample={"model": model, "n_t": n_t, "labels": n_lab})
+    if not np.isfinite(kappa) or kappa * n_t * EPS > 1e-7:
+        rec.skip(M10, "ill-conditioned survival matrix (kappa*n*eps > 1e-7)")
+    else:
+        xs = max(float(np.max(np.abs(x))), 1e-300)
+        for what, a_, b_, sc in (("inflow", sdm.inflow.values, x, xs), ("outflow", sdm.outflow.values, idm.outflow.values, xs),
+                                 ("stock_by_cohort", sdm.get_stock_by_cohort(), idm.get_stock_by_cohort(), max(float(np.max(np.abs(idm.stock.values))), 1e-300)),
+                                 ("outflow_by_cohort", sdm.get_outflow_by_cohort(), idm.get_outflow_by_cohort(), xs)):
+            ok, rel = allclose_scaled(a_, b_, tol, sc)
+            if not ok:
+                rec.violation(M10, f"stock-driven-{what.replace('_', '-')}-differs:large-tables", dict(model=model, solver=solver, n_t=n_t, labels=n_lab, rel_diff=rel, tol=tol, kappa=kappa))
+    del idm, sdm
+    gc.collect()
+
+
 def c10_case(rec, hub, rng, tier):
     fd = hub.fd
-    cfg, lm = make_solvable(fd, rng, tier, wide_p=0.012, very_long_p=0.2)  # every fifth configuration: survival shares next to one (a nearly unit diagonal)
+    cfg, lm = make_solvable(fd, rng, tier, very_long_p=0.2)  # every fifth configuration: survival shares next to one (a nearly unit diagonal)
     if cfg is None:
         rec.skip(M10, "no solvable configuration found")
         return
